@@ -558,6 +558,7 @@ func runGram(c *explore.Ctx, side *gramSide) {
 	}
 	valuesSub(c, side, g)
 	histSub(c)
+	garbageSub(c, side, g)
 	familiesAcceptSub(c, side, g)
 	corpusSub(c, side, g)
 }
